@@ -215,7 +215,7 @@ def buffer_aliasing(chk):
     for c, fn, nd, a in sites[:1]:
         chk.require("C13.R6", f"{c.mod.rel}:{nd.lineno}", not writers, f"{c.name}.{fn.name} hands the buffer `{a}` itself to the tensor it returns ({n} such sites); handlers writing a scale in place: {writers}", f"{c.name}.{fn.name}", "module output aliases a scale buffer",
                     "a model whose forward writes into a module output (h[0] = g[0], or h.copy_(g)) between two quantized modules: outside any Calibration context the first module's output_scale changes (0.0108 -> 0.0514) and its next output is not bit-identical")
-    chk.floor("C13.R6", n, 2, "scale buffers handed to quantize_activation")
+    chk.floor("C13.R6", n, 1, "scale buffers handed to quantize_activation")
 
 
 def who_may_call(chk):
